@@ -43,6 +43,9 @@ def run(ctx):
         if fid.startswith("parser::encryption_handler::"):
             for b, s, c in L.str_args(fn, ["PdfDictionary::get", "PdfDictionary::contains_key"]):
                 read.add(s)
+            if fn.kind != "Closure":
+                # keys handed to a local helper / closure as a literal (`names_identity("StrF")`)
+                read |= L.keys_read_deep(facts, fid, depth=2)
     ctx.floor("R2", "encryption dictionary keys written", len(written), 10)
     ctx.floor("R2", "encryption dictionary keys read", len(read), 8)
     for k in GOVERNING:
